@@ -2,6 +2,8 @@ package jsonrpc
 
 import (
 	"context"
+	"encoding/json"
+	"errors"
 	"fmt"
 	"net/http"
 	"sort"
@@ -201,6 +203,7 @@ func TestVerifC30T(t *testing.T) {
 	defer r.Finish()
 	vm := &c30tVM{store: map[string][]byte{}, rules: genesis.NewDefaultRules(), parser: chaintest.NewTestParser()}
 	srv := NewJSONRPCServer(vm)
+	r.Fact("maxActionsPerTx", vm.rules.GetMaxActionsPerTx())
 	index := map[string]int{}
 	for i := 0; i < c30tN; i++ {
 		index[string(c30tKey(i))] = i
@@ -221,7 +224,11 @@ func TestVerifC30T(t *testing.T) {
 			}
 			lines = append(lines, "tstate "+st)
 			var as []string
-			for n := 1 + r.RNG.Intn(3); n > 0; n-- {
+			n := 1 + r.RNG.Intn(3)
+			if r.RNG.Chance(2) {
+				n = 17
+			}
+			for ; n > 0; n-- {
 				as = append(as, c30tGenAction(r, i%2 == 1))
 			}
 			a := strings.Join(as, " ")
@@ -291,6 +298,10 @@ func TestVerifC30T(t *testing.T) {
 				r.Emit(l, "rpc-err")
 				continue
 			}
+			if b, err := json.Marshal(&reply); err != nil || json.Unmarshal(b, &ExecuteActionReply{}) != nil {
+				r.Emit(l, "json-err")
+				continue
+			}
 			out := fmt.Sprintf("ok %d", len(reply.Outputs))
 			if reply.Error != "" {
 				out = fmt.Sprintf("fail %d %s", len(reply.Outputs), c30tErr(reply.Error))
@@ -308,6 +319,17 @@ func TestVerifC30T(t *testing.T) {
 				r.Emit(l, "err")
 				r.Count("tsim:err")
 				continue
+			}
+			if b, err := json.Marshal(&reply); err != nil {
+				r.Emit(l, "json-err")
+				continue
+			} else {
+				var wire SimulateActionsReply
+				if err := json.Unmarshal(b, &wire); err != nil {
+					r.Emit(l, "json-err")
+					continue
+				}
+				reply = wire
 			}
 			var p []string
 			for _, ar := range reply.ActionResults {
@@ -342,7 +364,11 @@ func TestVerifC30T(t *testing.T) {
 			}
 			tsv := tstate.New(1).NewView(sk, state.ImmutableStorage(vm.store), len(sk))
 			if err := tx.PreExecute(ctx, fm, bh, vm.rules, tsv, 1_000_000); err != nil {
-				r.Emit(l, "unpayable")
+				if errors.Is(err, chain.ErrTooManyActions) {
+					r.Emit(l, "too-many")
+				} else {
+					r.Emit(l, "unpayable")
+				}
 				continue
 			}
 			res, err := tx.Execute(ctx, fm, bh, vm.rules, tsv, 1_000_000)
